@@ -255,7 +255,7 @@ CHECKS = {
              "by the Lean model of its reader (correspondence) and by the Lean specification reader: the loaded document must equal what "
              "the text states (nothing dropped/invented) and be stable under write+load. Lean: scalar spellings agree between library "
              "reader and spec reader (c11_scalar_*), decoder failures are classified (c11_value_errors_classified); stability = C01 applied "
-             "to the loaded document.",
+             "to the loaded document. Loaded documents (Props/C11C): c11_reachable_record_json / _xml - every record of a heap reachable by the public mutators (the readers build through new_record) round-trips at record level through PROV-JSON and PROV-XML with exactly its content, without any hypothesis on how it was built.",
         note=A_COMMON + " PROV-XML half: lxml-built foreign texts (typed values in every spelling, subtype elements, xsi:type on elements, "
              "bundle-level xmlns and default namespace) + mutations of the 45 corpus files, judged the same way; JSON->document->XML->document "
              "cross-format leg on XML-expressible documents. Attributes that the text "
